@@ -25,7 +25,7 @@ def cases(tier, seed):
     rng = np.random.default_rng(18000 + seed)
     out = []
     klams = [0.0, 0.05, 0.35, 0.7, 1.0]
-    n = 20 if tier == "quick" else 150
+    n = 20 if tier == "quick" else 450
     for k in range(n):
         half = "left" if k % 2 else "full"
         spec = M.random_spec(rng, half=half, nx=int(rng.integers(2, 4)), ny=int(rng.integers(3, 8)))
@@ -33,21 +33,21 @@ def cases(tier, seed):
         out.append(dict(kind="visc", mesh=spec, sym=(half == "left"), k_lam=klams[k % 5] if k % 10 < 5 else float(np.round(rng.random(), 3)),
                         Mach=float(np.round(rng.uniform(0.05, 0.93), 3)), alpha=float(np.round(rng.uniform(-3, 8), 2)),
                         tc=float(np.round(rng.uniform(0.04, 0.25), 3)), _cost=3))
-    n = 20 if tier == "quick" else 150
+    n = 20 if tier == "quick" else 450
     for k in range(n):
         half = "left" if k % 2 else "full"
         spec = M.random_spec(rng, half=half, nx=int(rng.integers(2, 4)), ny=int(rng.integers(3, 8)))
         spec.update(camber=0.0, twist_tip_deg=0.0, sweep_deg=float(np.round(rng.uniform(0, 40), 2)))
         out.append(dict(kind="wave", mesh=spec, sym=(half == "left"), CL0=float(np.round(rng.choice([0.0, 0.0, rng.uniform(0.05, 0.5)]), 3)),
                         alpha=float(np.round(rng.uniform(0, 6), 2)), tc=float(np.round(rng.uniform(0.06, 0.16), 3)), _cost=4))
-    n = 6 if tier == "quick" else 30
+    n = 6 if tier == "quick" else 90
     for k in range(n):
         out.append(dict(kind="mesh", sym=bool(k % 2), sweep=float(np.round(rng.choice([0.0, rng.uniform(5, 40)]), 2)), span=float(np.round(rng.uniform(6, 20), 2)),
                         chord=float(np.round(rng.uniform(0.8, 3), 2)), k_lam=klams[k % 5], CL0=float(np.round(rng.uniform(0.3, 0.6), 3)),
                         Mach=float(np.round(rng.uniform(0.8, 0.9), 3)), tc=float(np.round(rng.uniform(0.08, 0.14), 3)),
                         grids=[[2, 3], [3, 5], [4, 11], [7, 21], [2, 41], [5, 7]] if tier == "quick" else [[2, 3], [3, 5], [4, 11], [7, 21], [2, 41], [5, 7], [6, 31], [3, 13]],
                         _cost=10))
-    for k in range(8 if tier == "quick" else 40):
+    for k in range(8 if tier == "quick" else 120):
         half = "left" if k % 2 else "full"
         spec = M.random_spec(rng, half=half, nx=2, ny=int(rng.integers(3, 6)))
         out.append(dict(kind="switch", mesh=spec, sym=(half == "left"), visc=bool(k % 4 < 2), wave=bool(k % 4 in (1, 2)), Mach=0.9, alpha=5.0))
